@@ -131,6 +131,16 @@ func (w *World) verifyFunc(fn *ssa.Function, ct *Contract, mode Mode) (res *Func
 			n.cl = &d
 			e.modLocs = append(e.modLocs, n.designator(d.Expr)...)
 		}
+		if ct.Pure {
+			// decided by a scan of the SSA body (no calls, reads only arguments, locals and never-written tables)
+			ok, why := w.pureScan(fn)
+			goal := TTrue
+			if !ok {
+				goal = TFalse
+				e.note("not pure: %s", why)
+			}
+			e.oblige("pure", "pure[function-of-its-arguments]", TTrue, goal, fn.Pos())
+		}
 	}
 	e.entry = st.clone()
 	e.runBlocks(fr, fr.rpo, fn.Blocks[0], st, nil)
